@@ -20,7 +20,7 @@ func init() {
 			"R12.3: a pointer returned together with an error is dereferenced only where the error is known nil or the pointer known non-nil. " +
 			"R12.4: no unchecked type assertion outside the frozen pool-buffer idiom. " +
 			"R12.5: every write to a map held in a struct field or global is dominated by its allocation or a non-nil fact. " +
-			"R12.6: divisors in packet/request paths exclude zero.",
+			"R12.6: divisors in packet/request paths exclude zero. R12.7: token.Parse, whose callers treat a nil error as a usable token, never wraps a possibly nil pointer into the Token interface together with a nil error: where the pointer comes from a function that can return (nil, nil) it is returned only under a non-nil test.",
 		NotDecided: []string{
 			"panics inside pion, gorilla/websocket, ebml and the standard library",
 			"resource exhaustion and process liveness",
@@ -41,6 +41,7 @@ func runC12(c *Ctx) {
 	runC12Assert(c)
 	runC12Maps(c)
 	runC12Div(c)
+	runC12TypedNil(c)
 }
 
 // ---------- R12.2 nullable group ----------
@@ -875,4 +876,106 @@ func constructorNonNil(p *Program, f *types.Var) bool {
 		})
 	}
 	return ok && lits > 0
+}
+
+// R12.7: a nil *JWT converted to the interface Token is not a nil Token; the
+// callers of token.Parse test the error (or the interface against nil) and
+// then call methods that dereference the receiver.
+func runC12TypedNil(c *Ctx) {
+	p := c.P
+	c.Rule("R12.7", "E2", "token.Parse returns no typed-nil token with a nil error", 1)
+	ps := p.Func("token", "", "Parse")
+	if ps == nil {
+		c.Unknown("R12.7", "anchors", 0, "token.Parse not found")
+		return
+	}
+	info := ps.Pkg.TypesInfo
+	ff := p.Facts().Analyze(ps)
+	// can the callee return a nil pointer at result k together with a nil error?
+	mayNilNil := func(src *FuncSrc, k int) bool {
+		if src == nil || src.Decl == nil {
+			return true // unknown callee: assume it can
+		}
+		ci := src.Pkg.TypesInfo
+		cf := p.Facts().Analyze(src)
+		for _, ret := range cf.Returns() {
+			n := len(ret.Results)
+			if n <= k {
+				return true
+			}
+			if isNilIdent(ci, ret.Results[k]) && isNilIdent(ci, ret.Results[n-1]) {
+				return true
+			}
+		}
+		return false
+	}
+	nret := 0
+	for _, ret := range ff.Returns() {
+		if len(ret.Results) != 2 {
+			continue
+		}
+		r0 := unparen(ret.Results[0])
+		t := info.TypeOf(r0)
+		if t == nil {
+			continue
+		}
+		if _, isPtr := t.Underlying().(*types.Pointer); !isPtr {
+			continue
+		}
+		nret++
+		id, ok := r0.(*ast.Ident)
+		okRet, why := false, "a pointer that is not a plain local is converted to Token"
+		if ok {
+			obj := info.ObjectOf(id)
+			// its defining call
+			var def *ast.CallExpr
+			idx, ndef := 0, 0
+			var errObj types.Object
+			ast.Inspect(ps.Body(), func(n ast.Node) bool {
+				as, isAs := n.(*ast.AssignStmt)
+				if !isAs {
+					return true
+				}
+				for i, l := range as.Lhs {
+					if lid, isId := l.(*ast.Ident); isId && info.ObjectOf(lid) == obj {
+						ndef++
+						if len(as.Rhs) == 1 {
+							if call, isC := unparen(as.Rhs[0]).(*ast.CallExpr); isC {
+								def, idx = call, i
+								if eid, isE := as.Lhs[len(as.Lhs)-1].(*ast.Ident); isE && eid.Name != "_" {
+									errObj = info.ObjectOf(eid)
+								}
+							}
+						}
+					}
+				}
+				return true
+			})
+			st, _ := ff.At(ret)
+			nonNil := st != nil && (st.HasFact(mkFact(false, "eq", TVar(obj), TNil())) || st.HasFact(mkFact(false, "eq", TNil(), TVar(obj))))
+			errNil := isNilIdent(info, ret.Results[1])
+			if !errNil && st != nil && errObj != nil {
+				if eid, isE := unparen(ret.Results[1]).(*ast.Ident); isE && (st.HasFact(mkFact(true, "eq", TVar(info.ObjectOf(eid)), TNil())) || st.HasFact(mkFact(true, "eq", TNil(), TVar(info.ObjectOf(eid))))) {
+					errNil = true
+				}
+			}
+			switch {
+			case nonNil:
+				okRet = true
+			case ndef != 1 || def == nil:
+				why = "the pointer has no single defining call"
+			case !errNil:
+				okRet = true // returned together with the callee's own error, untested
+			case !mayNilNil(p.SrcOfFunc(calleeOf(&CallSite{Call: def, In: ps})), idx):
+				okRet = true
+			default:
+				why = "it comes from " + types.ExprString(def.Fun) + ", which can return (nil, nil), and is returned with a nil error without a non-nil test"
+			}
+		}
+		c.Check(okRet, "R12.7", fmt.Sprintf("Parse: return #%d of a pointer as Token", nret), ret.Pos(), "non-nil, or paired with its callee's error, or from a callee that never returns (nil, nil)",
+			"a nil pointer can be wrapped into the interface Token and returned with a nil error ("+why+"): GetPermission and the admin-token check then call Check on a nil receiver - one join message with a malformed token kills the server")
+	}
+	if nret == 0 {
+		c.Bad("R12.7", "Parse returns pointers as Token", ps.Pos(), "no return of a pointer-typed value found in token.Parse")
+	}
 }
